@@ -915,14 +915,16 @@ func (w *acWorld) cred(svc, kind string) (map[string]string, []string) {
 
 var acHex24 = regexp.MustCompile(`[0-9a-f]{24}`)
 
-// error-text pairs (foreign object | nowhere-existing object) of the listed finding c13-error-message-discloses
-var acKnownTextPairs = map[string]bool{
-	"check client(<id>,<id>) in project(<id>): client not found | <id>: client not found":                                                                                                     true,
-	"find document of <id>: document not found | find document of Document (<id>.<id>): document not found":                                                                                   true,
-	"create revision of Document (<id>.<id>): find document of <id>: document not found | create revision of Document (<id>.<id>): find document of Document (<id>.<id>): document not found": true,
-	"find project member: project member not found | <name>: project not found":                                                                                                               true,
-	"find project member: project member not found | <id>: project not found":                                                                                                                 true,
-	"restore revision of <id>: revision not found | revision not found":                                                                                                                       true,
+// Error-text pairs (foreign object | nowhere-existing object) that are documented behaviour, not a
+// finding: a signed-up user can tell a project he is not a member of from a project that does not
+// exist. That is about project NAMES / IDS (names are globally unique, CreateProject answers
+// already_exists; the two cases carry the distinct codes ErrMemberNotFound / ErrProjectNotFound),
+// which C13 ("clients and documents of another project") does not cover. They are counted
+// (`documented:project-membership-vs-existence-text`), never reported. Every other text difference –
+// clients, documents, revisions, sessions: made identical by /repo 863f1a42 – is a plain violation.
+var acDocumentedTextPairs = map[string]bool{
+	"find project member: project member not found | <name>: project not found": true,
+	"find project member: project member not found | <id>: project not found":   true,
 }
 
 func (w *acWorld) secrets(label string) []string {
@@ -1086,12 +1088,9 @@ func (w *acWorld) exec(line string) acOutcome {
 		}
 		for _, sec := range w.secrets(l) {
 			if strings.Contains(r.text, sec) && !strings.Contains(reqText, sec) {
-				tag := ""
-				if r.code != "ok" && sec == w.projs[l].id {
-					tag = "KNOWN[c13-error-message-discloses] " // only the owning project's id in an error text is the listed finding
-				}
-				// (GetRevision disclosing a foreign snapshot was repaired by /repo ddb0dfd3: a plain violation if it returns)
-				c.Oracle("%sresponse discloses data of project %s (%q) to: %s -> %s", tag, l, sec, line, r.code)
+				// no listed finding discloses anything any more (ddb0dfd3: foreign snapshot; 863f1a42: owning
+				// project's id in an error text): always a plain violation
+				c.Oracle("response discloses data of project %s (%q) to: %s -> %s", l, sec, line, r.code)
 				break
 			}
 		}
@@ -1214,12 +1213,10 @@ func runAccess(c *Ctx) error {
 						c.Oracle("foreign id honoured: %s answered ok but the same request with a nowhere-existing id is %s", strings.Replace(l, "target=g", "target=f", 1), o.code)
 					case f.code != o.code:
 						c.Oracle("existence of a foreign object is observable: %s -> %s, nowhere-existing twin -> %s", strings.Replace(l, "target=g", "target=f", 1), f.code, o.code)
+					case f.norm != o.norm && acDocumentedTextPairs[f.norm+" | "+o.norm]:
+						c.Count("documented:project-membership-vs-existence-text")
 					case f.norm != o.norm:
-						tag := ""
-						if acKnownTextPairs[f.norm+" | "+o.norm] {
-							tag = "KNOWN[c13-error-message-discloses] "
-						}
-						c.Oracle(tag+"error text distinguishes a foreign object from a nowhere-existing one: %s: %q vs %q",
+						c.Oracle("error text distinguishes a foreign object from a nowhere-existing one: %s: %q vs %q",
 							strings.Replace(l, "target=g", "target=f", 1), f.norm, o.norm)
 					}
 				}
